@@ -921,6 +921,8 @@ def dict_getitem(ex, state, ref, k):
         if t is None:
             ex.raise_if(state, z3.BoolVal(True), "KeyError")
         ex.raise_if(state, z3.Not(z3.Select(sym["has"], t)), "KeyError")
+        if sym["vtype"].startswith("seq:"):
+            return VListView(ref, t, sym["vtype"][4:])
         from .contracts import _wrap_sym
         return _wrap_sym(sym["vtype"], z3.Select(sym["val"], t))
     try:
@@ -948,6 +950,15 @@ def dict_setitem(ex, state, ref, k, v):
         from .contracts import _unwrap_sym
         o.sym = dict(sym)
         o.sym["has"] = z3.Store(sym["has"], t, z3.BoolVal(True))
+        if sym["vtype"].startswith("seq:"):
+            src = ex.obj(state, v) if isinstance(v, VRef) else None
+            if src is not None and src.kind == "list":
+                seq, el = list_to_seq(src)
+                if src.items == []:
+                    seq = z3.Empty(sym["val"].sort().range())
+                o.sym["val"] = z3.Store(sym["val"], t, seq)     # the list is stored by value (see VListView)
+                return
+            raise Unsupported("store of %r into a table of lists" % (v,))
         o.sym["val"] = z3.Store(sym["val"], t, _unwrap_sym(sym["vtype"], v))
         return
     o.d[ex.const_key(k)] = v
@@ -1098,3 +1109,34 @@ def b_urandom(ex, state, args, kwargs, sv):
 
 
 from . import models_c  # noqa: E402,F401  (registers the builtins of translated C code)
+
+
+# ------------------------------------------------------------------------------------------ list views (lists inside tables)
+
+def lv_seq(ex, state, lv):
+    o = ex.obj(state, lv.dict_ref)
+    return z3.Select(o.sym["val"], lv.key)
+
+
+def lv_set(ex, state, lv, seq):
+    o = state.heap[lv.dict_ref.oid]
+    o.sym = dict(o.sym)
+    o.sym["val"] = z3.Store(o.sym["val"], lv.key, seq)
+
+
+@builtin("listview.append")
+def lv_append(ex, state, args, kwargs, sv):
+    el, t = elem_of_value(args[0])
+    lv_set(ex, state, sv, z3.Concat(lv_seq(ex, state, sv), z3.Unit(t)))
+    return VNone
+
+
+@builtin("listview.remove")
+def lv_remove(ex, state, args, kwargs, sv):
+    el, t = elem_of_value(args[0])
+    s = lv_seq(ex, state, sv)
+    i = z3.IndexOf(s, z3.Unit(t), 0)
+    ex.raise_if(state, i < 0, "ValueError")
+    n = z3.Length(s)
+    lv_set(ex, state, sv, z3.Concat(z3.Extract(s, 0, i), z3.Extract(s, i + 1, n - i - 1)))
+    return VNone
